@@ -525,6 +525,183 @@ func keysOf(m map[string]any) []string {
 	return ks
 }
 
+// malformed verifier-only data and common circuit data documents (real documents with one
+// value replaced): must be refused at read time or, for verifier data, at witness time.
+type docCorruption struct {
+	name   string
+	listed bool
+	apply  func(d map[string]any, r *rand.Rand)
+}
+
+func c19VDCorruptions() []docCorruption {
+	setCap := func(v any) func(map[string]any, *rand.Rand) {
+		return func(d map[string]any, r *rand.Rand) {
+			c := d["constants_sigmas_cap"].([]any)
+			c[r.Intn(len(c))] = v
+		}
+	}
+	setDig := func(v any) func(map[string]any, *rand.Rand) {
+		return func(d map[string]any, _ *rand.Rand) { d["circuit_digest"] = v }
+	}
+	return []docCorruption{
+		{"vd_cap_nonnumeric_string", true, setCap("hello")},
+		{"vd_cap_hex_string", true, setCap("0x1f")},
+		{"vd_cap_empty_string", true, setCap("")},
+		{"vd_cap_decimal_with_letters", true, setCap("77x")},
+		{"vd_cap_fractional_string", true, setCap("3.5")},
+		{"vd_cap_number_instead_of_string", true, setCap(json.Number("123"))},
+		{"vd_digest_nonnumeric_string", true, setDig("digest")},
+		{"vd_digest_hex_string", true, setDig("0xabc")},
+		{"vd_digest_empty_string", true, setDig("")},
+		{"vd_digest_number_instead_of_string", true, setDig(json.Number("5"))},
+		{"vd_scalar_for_cap_list", true, func(d map[string]any, _ *rand.Rand) { d["constants_sigmas_cap"] = "12" }},
+		{"vd_list_for_digest", true, setDig([]any{"1", "2"})},
+		{"info_vd_cap_signed_decimal_string", false, setCap("-5")},
+	}
+}
+
+func c19CommonCorruptions() []docCorruption {
+	at := func(path []string, v any) func(map[string]any, *rand.Rand) {
+		return func(d map[string]any, _ *rand.Rand) {
+			m := d
+			for _, k := range path[:len(path)-1] {
+				m = m[k].(map[string]any)
+			}
+			m[path[len(path)-1]] = v
+		}
+	}
+	big65 := json.Number("18446744073709551616")
+	var cs []docCorruption
+	fields := [][]string{{"config", "num_wires"}, {"config", "num_routed_wires"}, {"config", "num_challenges"}, {"config", "fri_config", "num_query_rounds"}, {"config", "fri_config", "proof_of_work_bits"},
+		{"fri_params", "degree_bits"}, {"fri_params", "config", "cap_height"}, {"quotient_degree_factor"}, {"num_gate_constraints"}, {"num_constants"}, {"num_public_inputs"}, {"num_partial_products"}}
+	for _, f := range fields {
+		n := strings.Join(f, ".")
+		cs = append(cs,
+			docCorruption{"common_" + n + "_string", true, at(f, "12")},
+			docCorruption{"common_" + n + "_negative", true, at(f, json.Number("-1"))},
+			docCorruption{"common_" + n + "_fractional", true, at(f, json.Number("2.5"))},
+			docCorruption{"common_" + n + "_over_64_bits", true, at(f, big65)},
+			docCorruption{"common_" + n + "_list", true, at(f, []any{json.Number("1")})})
+	}
+	cs = append(cs,
+		docCorruption{"common_k_is_scalar", true, at([]string{"k_is"}, json.Number("7"))},
+		docCorruption{"common_k_is_negative_entry", true, func(d map[string]any, r *rand.Rand) {
+			k := d["k_is"].([]any)
+			k[r.Intn(len(k))] = json.Number("-7")
+		}},
+		docCorruption{"common_k_is_over_64_bits_entry", true, func(d map[string]any, r *rand.Rand) {
+			k := d["k_is"].([]any)
+			k[r.Intn(len(k))] = big65
+		}},
+		docCorruption{"common_k_is_string_entry", true, func(d map[string]any, r *rand.Rand) {
+			k := d["k_is"].([]any)
+			k[r.Intn(len(k))] = "7"
+		}},
+		docCorruption{"common_gates_scalar", true, at([]string{"gates"}, "NoopGate")},
+		docCorruption{"common_reduction_arity_bits_scalar", true, at([]string{"fri_params", "reduction_arity_bits"}, json.Number("4"))},
+		docCorruption{"common_reduction_arity_bits_negative_entry", true, at([]string{"fri_params", "reduction_arity_bits"}, []any{json.Number("4"), json.Number("-4")})},
+		docCorruption{"common_selector_indices_scalar", true, at([]string{"selectors_info", "selector_indices"}, json.Number("0"))},
+		docCorruption{"common_selector_group_negative", true, func(d map[string]any, _ *rand.Rand) {
+			g := d["selectors_info"].(map[string]any)["groups"].([]any)
+			g[0].(map[string]any)["start"] = json.Number("-1")
+		}},
+	)
+	return cs
+}
+
+func c19DocCorrupt(ctx *fw.Ctx, c fw.Case, r *rand.Rand, dir, fname string) fw.Outcome {
+	var o fw.Outcome
+	isVD := c.Kind == "corruptvd"
+	list := c19CommonCorruptions()
+	in := getInst([]string{"A_testdata", "B_random_CGZ"}[c.Int("k")%2])
+	src := in.Files.Common
+	if isVD {
+		list = c19VDCorruptions()
+		src = in.Files.VD
+	}
+	var cor *docCorruption
+	for i := range list {
+		if list[i].name == c.Str("name") {
+			cor = &list[i]
+		}
+	}
+	b, err := os.ReadFile(src)
+	if err != nil || cor == nil {
+		return fw.Inconcl(fmt.Sprintf("document %s / corruption %s unavailable", src, c.Str("name")))
+	}
+	dec := json.NewDecoder(strings.NewReader(string(b)))
+	dec.UseNumber()
+	var doc map[string]any
+	if err := dec.Decode(&doc); err != nil {
+		return fw.Inconcl(err.Error())
+	}
+	applied := true
+	func() {
+		defer func() {
+			if rr := recover(); rr != nil {
+				applied = false
+			}
+		}()
+		cor.apply(doc, r)
+	}()
+	if !applied {
+		return fw.Inconcl("field of corruption " + cor.name + " not present in the real document")
+	}
+	path, err := writeDoc(dir, fname, doc)
+	if err != nil {
+		return fw.Inconcl(err.Error())
+	}
+	refused, stage := false, "read"
+	if isVD {
+		for _, viaRequest := range []bool{false, true} {
+			refused, stage = false, "read"
+			var vd variables.VerifierOnlyCircuitData
+			func() {
+				defer func() {
+					if rr := recover(); rr != nil {
+						refused = true
+					}
+				}()
+				if viaRequest {
+					raw, _ := os.ReadFile(path)
+					vd = variables.DeserializeVerifierOnlyCircuitData(types.ReadVerifierOnlyCircuitDataFromRequest(raw))
+				} else {
+					vd = variables.DeserializeVerifierOnlyCircuitData(types.ReadVerifierOnlyCircuitData(path))
+				}
+			}()
+			if !refused {
+				a := &verifier.VerifierCircuit{PublicInputs: in.PWI.PublicInputs, Proof: in.PWI.Proof, VerifierData: vd}
+				if _, werr := witnessGuard(a); werr != nil {
+					refused, stage = true, "witness"
+				}
+			}
+			o.Events++
+			if cor.listed && !refused {
+				return fw.Violate("malformed_value_accepted:"+cor.name, fmt.Sprintf("verifier data with %s was read (request reader: %v) and turned into a witness", cor.name, viaRequest))
+			}
+		}
+	} else {
+		func() {
+			defer func() {
+				if rr := recover(); rr != nil {
+					refused = true
+				}
+			}()
+			types.ReadCommonCircuitData(path)
+		}()
+		o.Events++
+		if cor.listed && !refused {
+			return fw.Violate("malformed_value_accepted:"+cor.name, "common circuit data with "+cor.name+" was read without an error")
+		}
+	}
+	if !cor.listed {
+		o.Trivial = true
+		return o
+	}
+	o.Inc("refused_at_" + stage + "_" + cor.name)
+	return o
+}
+
 func init() {
 	register("C19", func() *fw.Prop {
 		return &fw.Prop{
@@ -561,6 +738,14 @@ func init() {
 				reps := 2
 				if !ctx.Quick {
 					reps = 40
+				}
+				for k := 0; k < 2; k++ {
+					for _, c := range c19VDCorruptions() {
+						cs = append(cs, fw.Case{ID: fmt.Sprintf("corruptvd/%s/%d", c.name, k), Kind: "corruptvd", P: map[string]any{"name": c.name, "k": k}})
+					}
+					for _, c := range c19CommonCorruptions() {
+						cs = append(cs, fw.Case{ID: fmt.Sprintf("corruptcommon/%s/%d", c.name, k), Kind: "corruptcommon", P: map[string]any{"name": c.name, "k": k}})
+					}
 				}
 				for _, c := range c19Corruptions() {
 					for k := 0; k < reps; k++ {
@@ -700,6 +885,8 @@ func init() {
 					return c19Common(r, dir, fname)
 				case "reqseq":
 					return c19ReqSeq(r, dir, fname)
+				case "corruptvd", "corruptcommon":
+					return c19DocCorrupt(ctx, c, r, dir, fname)
 				case "pair":
 					// two documents read one after the other in the same process that differ in ONE
 					// value (same circuit digest, same everything else): the second assignment must
@@ -830,6 +1017,35 @@ func init() {
 					path, err := writeDoc(dir, fname, doc)
 					if err != nil {
 						return fw.Inconcl(err.Error())
+					}
+					// both entry points: the file reader and the request-body reader of the web API
+					if c.Int("k")%2 == 1 || cor.listed {
+						raw, _ := os.ReadFile(path)
+						var p2 variables.ProofWithPublicInputs
+						refused2 := false
+						func() {
+							defer func() {
+								if rr := recover(); rr != nil {
+									refused2 = true
+								}
+							}()
+							p2, _ = variables.DeserializeProofWithPublicInputs(types.ReadProofWithPublicInputsFromRequest(raw))
+						}()
+						if !refused2 {
+							a := &verifier.VerifierCircuit{PublicInputs: p2.PublicInputs, Proof: p2.Proof}
+							a.VerifierData.CircuitDigest = big.NewInt(7)
+							a.VerifierData.ConstantSigmasCap = []frontend.Variable{}
+							if _, werr := witnessGuard(a); werr != nil {
+								refused2 = true
+							}
+						}
+						o.Events++
+						if cor.listed && !refused2 {
+							return fw.Violate("malformed_value_accepted:request_reader:"+cor.name, "a request body with "+cor.name+" was read and turned into a witness")
+						}
+						if refused2 {
+							o.Inc("request_reader_refused_" + cor.name)
+						}
 					}
 					pwi, refused, msg := readProofGuard(path)
 					o.Events++
